@@ -201,6 +201,10 @@ def make_search(mido, kind, depth):
         out += [('close',), ('with',), ('del',)]
         if s.autoreset_dev is not None and not s.closed_model:
             out += [('arm_fail', 1), ('arm_fail', 7), ('arm_fail', 32)]
+        if kind != 'echo' and s.can_in and not s.closed_model:
+            for i in s.in_srcs:
+                if s.devs[i].fail_receive_at is None:
+                    out.append(('arm_fail_recv', i))
         return out
 
     def apply(s, op):
@@ -247,6 +251,10 @@ def make_search(mido, kind, depth):
                 d = s.devs[s.autoreset_dev]
                 d.fail_send_at = d.send_calls + op[1]
                 res = ('env',)
+            elif k == 'arm_fail_recv':
+                d = s.devs[op[1]]
+                d.fail_receive_at = len(d.receive_calls) + 1
+                res = ('env',)
             elif k == 'send':
                 s.counter += 1
                 m = M('note_on', note=s.counter % 128,
@@ -285,10 +293,14 @@ def make_search(mido, kind, depth):
                     s.iter = None
                     res = ('raised', e)
             elif k == 'iter_pending':
+                items = []
                 try:
-                    res = ('values', list(p.iter_pending()))
+                    for m in p.iter_pending():
+                        items.append(m)
+                    res = ('values', items)
                 except Exception as e:
-                    res = ('raised', e)
+                    # what was yielded before the failure was received
+                    res = ('values-then-raised', items, e)
             elif k in ('close', 'with', 'del'):
                 try:
                     if k == 'close':
@@ -317,7 +329,7 @@ def make_search(mido, kind, depth):
         vals = []
         if res[0] == 'value' and res[1] is not None:
             vals = [res[1]]
-        elif res[0] == 'values':
+        elif res[0] in ('values', 'values-then-raised'):
             vals = list(res[1])
         obs['returned_ids'] = []
         for m in vals:
@@ -381,7 +393,7 @@ def make_search(mido, kind, depth):
                         f'(expected the 32 of reset_messages(), once, before '
                         f'the device is released)')
             return
-        if k in ('deliver', 'hangup', 'arm_fail'):
+        if k in ('deliver', 'hangup', 'arm_fail', 'arm_fail_recv'):
             return
         nb = k in ('poll', 'recv_nb', 'iter_pending', 'send')
         if nb and obs['sleeps']:
@@ -426,6 +438,18 @@ def make_search(mido, kind, depth):
         # --- receiving operations
         avail = obs['avail_before']
         heads = obs['heads_before']
+        if res[0] == 'values-then-raised':
+            e = res[2]
+            if not (isinstance(e, OSError) and 'injected' in str(e)):
+                bad(f'raised/{type(e).__name__}', f'{e!r}')
+                return
+            for mid, st in obs['returned_ids']:
+                if st not in ('device', 'taken'):
+                    bad('duplicate-or-phantom', f'returned {mid} ({st})')
+            return
+        if res[0] == 'raised' and isinstance(res[1], OSError) and \
+                'injected' in str(res[1]):
+            return      # the armed device read failure, passed on to the caller
         if res[0] == 'raised' and isinstance(res[1], BaseException):
             e = res[1]
             if k in ('poll', 'recv_nb', 'iter_pending'):
@@ -648,7 +672,7 @@ def run():
         f'next(iterator) each with an environment script for the sleep seam '
         f'(nothing / message arrives / device hangs up at the 1st or 2nd '
         f'poll, or nothing up to horizon {H}), close, with-exit, __del__, '
-        f'fail the k-th device write}}. Reference: per-source FIFO of '
+        f'fail the k-th device write, fail the next device read}}. Reference: per-source FIFO of '
         f'delivered / taken-in / returned messages, closed flag, release '
         f'counter, reset sequence. Deduplicated by the complete vars() of '
         f'port, devices and model')
